@@ -220,7 +220,7 @@ func (c *Ctx) trackerRules(rm map[string]string) {
 				r.Add(id, fmt.Sprintf("paired:%s:%s", c.FuncKey(fn), cal.Name()), c.InstrPos(x), c.FuncKey(fn), "membership edit "+cal.Name()+" is paired with the other side's edit for the same channel, nick and privilege pointer", found, "counterpart "+want.Name())
 			}
 		}
-		r.Floor(id, "membership edit call sites", nPairs, 8)
+		r.Floor(id, "membership edit call sites", nPairs, 4)
 	}
 	// ---- R2 ownership
 	if id := rm["R2"]; id != "" {
@@ -242,7 +242,7 @@ func (c *Ctx) trackerRules(rm map[string]string) {
 				r.Add(id, fmt.Sprintf("owner:%s:%s:%s", c.FuncKey(fn), op.Field.Name(), op.Kind), c.InstrPos(op.In), c.FuncKey(fn), "membership maps are written only by the edit functions, constructors and the rename's re-keying", ok, "write in "+c.FuncKey(fn))
 			}
 		}
-		r.Floor(id, "writes to the membership maps", n, 9)
+		r.Floor(id, "writes to the membership maps", n, 8)
 	}
 	// ---- R3 rename
 	if id := rm["R3"]; id != "" {
@@ -457,7 +457,7 @@ func (c *Ctx) gcRule(id string, m *trackerModel, nickDel *ssa.Function) {
 			r.Add(id, "gc:"+c.FuncKey(fn), c.InstrPos(cs), c.FuncKey(fn), "a nick left without channels is deleted", ok, why)
 		}
 	}
-	r.Floor(id, "nick-side delete call sites outside nick deletion", n, 2)
+	r.Floor(id, "nick-side delete call sites outside nick deletion", n, 1)
 	// Dissociate of the client itself deletes the channel
 	dis := c.Func(c.State, "(*stateTracker).Dissociate")
 	okSelf := false
@@ -567,9 +567,10 @@ func (c *Ctx) selfRule(id string, m *trackerModel) {
 	r.Floor(id, "deletes on the tracker's nick map", n, 2)
 }
 
-// modeArgRule: in the channel mode parser, every path from a read of the
-// next mode argument that writes tracker state also advances the argument
-// list before the next mode character is processed.
+// modeArgRule: in the channel mode parser (and helpers it hands the argument
+// list to), every path from a read of the next mode argument that writes
+// tracker state also advances the argument list (args[1:] fed back to the
+// loop variable, or returned to the caller) before the next mode character.
 func (c *Ctx) modeArgRule(id string) {
 	r := c.R
 	fn := c.Func(c.State, "(*channel).parseModes")
@@ -577,48 +578,14 @@ func (c *Ctx) modeArgRule(id string) {
 	if fn == nil {
 		return
 	}
-	r.Funcs[c.FuncKey(fn)] = true
-	// the argument list: a header phi of slice type fed by the variadic parameter
-	var args *ssa.Phi
-	funcInstrs(fn, func(in ssa.Instruction) {
-		if ph, ok := in.(*ssa.Phi); ok && c.IsLoopHeader(ph.Block()) {
-			if _, isSl := ph.Type().Underlying().(*types.Slice); isSl {
-				for _, e := range ph.Edges {
-					if e == ssa.Value(fn.Params[len(fn.Params)-1]) {
-						args = ph
-					}
-				}
-			}
-		}
-	})
-	r.Anchor(id, "mode-argument list (loop variable fed by the variadic parameter)", args != nil)
-	if args == nil {
-		return
-	}
-	isAdvance := func(in ssa.Instruction) bool {
-		s, ok := in.(*ssa.Slice)
-		if !ok || s.X != ssa.Value(args) || s.High != nil {
-			return false
-		}
-		k, okc := constInt(s.Low)
-		if !okc || k != 1 {
-			return false
-		}
-		// feeds the loop variable (directly or through phis)
-		return c.feedsPhi(s, args, 0)
-	}
-	isStateWrite := func(in ssa.Instruction) bool {
+	// state writers: functions storing to ChanMode / ChanPrivs fields
+	isModeStore := func(in ssa.Instruction) bool {
 		s, ok := in.(*ssa.Store)
 		if !ok {
 			return false
 		}
 		fa, ok := s.Addr.(*ssa.FieldAddr)
 		if !ok {
-			return false
-		}
-		// fields of ChanMode / ChanPrivs reached from tracker state
-		st := derefStruct(fa.X.Type())
-		if st == nil {
 			return false
 		}
 		if n, ok := fa.X.Type().Underlying().(*types.Pointer); ok {
@@ -628,33 +595,125 @@ func (c *Ctx) modeArgRule(id string) {
 		}
 		return false
 	}
-	n := 0
-	funcInstrs(fn, func(in ssa.Instruction) {
-		ia, ok := in.(*ssa.IndexAddr)
-		if !ok || ia.X != ssa.Value(args) {
-			return
+	writers := map[*ssa.Function]bool{}
+	for _, f := range c.stateFuncs() {
+		funcInstrs(f, func(in ssa.Instruction) {
+			if isModeStore(in) {
+				writers[f] = true
+			}
+		})
+	}
+	// functions to check: parseModes and the state-package functions it passes a []string on to
+	todo := []*ssa.Function{fn}
+	for _, cs := range CallSites(fn) {
+		cal := cs.Common().StaticCallee()
+		if cal == nil || cal.Package() != c.State || cal == fn {
+			continue
 		}
-		if k, okc := constInt(ia.Index); !okc || k != 0 {
-			return
-		}
-		n++
-		// explore paths from the read to the loop header; a path with a state write must contain an advance
-		hdr := args.Block().Instrs[0]
-		bad := ""
-		// instructions reachable from the read without passing an advance, stopping at the loop header
-		reach := ReachFrom(in, false, func(x ssa.Instruction) bool { return isAdvance(x) || x == hdr })
-		for x := range reach {
-			if isStateWrite(x) {
-				// is the header reachable from x without an advance?
-				r2 := ReachFrom(x, false, func(y ssa.Instruction) bool { return isAdvance(y) || y == hdr })
-				if r2[hdr] {
-					bad = c.InstrPos(x)
-				}
+		for _, a := range cs.Common().Args {
+			if _, isSl := a.Type().Underlying().(*types.Slice); isSl && !cs.Common().IsInvoke() {
+				todo = append(todo, cal)
+				break
 			}
 		}
-		r.Add(id, fmt.Sprintf("arg-consumed#%d", n), c.InstrPos(in), c.FuncKey(fn), "a mode argument that is written into tracker state is also consumed", bad == "", "state written at "+bad+" with the argument list not advanced before the next mode character")
-	})
-	r.Floor(id, "reads of the next mode argument", n, 4)
+	}
+	n := 0
+	for _, f := range todo {
+		r.Funcs[c.FuncKey(f)] = true
+		// candidate argument lists: slice-typed parameters and loop variables fed by them
+		var lists []ssa.Value
+		for _, pr := range f.Params {
+			if sl, ok := pr.Type().Underlying().(*types.Slice); ok && isStringType(sl.Elem()) {
+				lists = append(lists, pr)
+			}
+		}
+		funcInstrs(f, func(in ssa.Instruction) {
+			if ph, ok := in.(*ssa.Phi); ok && c.IsLoopHeader(ph.Block()) {
+				if sl, ok := ph.Type().Underlying().(*types.Slice); ok && isStringType(sl.Elem()) {
+					lists = append(lists, ph)
+				}
+			}
+		})
+		for _, args := range lists {
+			var hdr ssa.Instruction
+			if ph, ok := args.(*ssa.Phi); ok {
+				hdr = ph.Block().Instrs[0]
+			}
+			isAdvance := func(in ssa.Instruction) bool {
+				s, ok := in.(*ssa.Slice)
+				if !ok || s.X != args || s.High != nil {
+					return false
+				}
+				if k, okc := constInt(s.Low); !okc || k != 1 {
+					return false
+				}
+				if ph, ok := args.(*ssa.Phi); ok && c.feedsPhi(s, ph, 0) {
+					return true
+				}
+				// handed back to the caller
+				for _, ref := range *s.Referrers() {
+					switch t := ref.(type) {
+					case *ssa.Return:
+						return true
+					case *ssa.Store:
+						if _, isAl := t.Addr.(*ssa.Alloc); isAl {
+							return true // result spill
+						}
+					}
+				}
+				return false
+			}
+			isStateWrite := func(in ssa.Instruction) bool {
+				if isModeStore(in) {
+					return true
+				}
+				if cs, ok := in.(*ssa.Call); ok {
+					if cal := cs.Call.StaticCallee(); cal != nil && writers[cal] && cal != f {
+						// a helper that writes state and is NOT itself handed the list (otherwise it is checked on its own)
+						for _, a := range cs.Call.Args {
+							if a == args {
+								return false
+							}
+						}
+						return true
+					}
+				}
+				return false
+			}
+			end := func(x ssa.Instruction) bool { return isAdvance(x) || (hdr != nil && x == hdr) }
+			funcInstrs(f, func(in ssa.Instruction) {
+				ia, ok := in.(*ssa.IndexAddr)
+				if !ok || ia.X != args {
+					return
+				}
+				if k, okc := constInt(ia.Index); !okc || k != 0 {
+					return
+				}
+				n++
+				bad := ""
+				reach := ReachFrom(in, false, end)
+				for x := range reach {
+					if !isStateWrite(x) {
+						continue
+					}
+					r2 := ReachFrom(x, false, end)
+					for y := range r2 {
+						if (hdr != nil && y == hdr) || (isReturn(y) && !isAdvance(y)) {
+							// reached the next mode character / the caller without an advance on this path
+							if isReturn(y) {
+								// a return is an un-advanced exit only if no advance precedes it on the path (ReachFrom stops at advances)
+								bad = c.InstrPos(x)
+							} else {
+								bad = c.InstrPos(x)
+							}
+						}
+					}
+				}
+				r.Add(id, fmt.Sprintf("arg-consumed:%s#%d", f.Name(), n), c.InstrPos(in), c.FuncKey(f), "a mode argument that is written into tracker state is also consumed", bad == "", "state written at "+bad+" with the argument list not advanced before the next mode character")
+			})
+		}
+	}
+	r.Floor(id, "reads of the next mode argument", n, 1)
 }
 
 // feedsPhi: v reaches phi through phi edges only.
@@ -1078,6 +1137,33 @@ func (c *Ctx) namesRule(h *ssa.Function) {
 			ok := c.LoopDepth(cs.Block()) >= 1
 			r.Add("R1", "353:associate", c.InstrPos(cs), c.FuncKey(h), "each listed name is associated with the channel", ok, "inside the loop over names")
 		case "ChannelModes":
+			if hc, ok := cs.Common().Args[1].(*ssa.Call); ok && !hc.Call.IsInvoke() && hc.Call.StaticCallee() != nil && c.InModuleFn(hc.Call.StaticCallee()) {
+				// prefix -> mode mapping computed by a helper: read it from the helper's returns
+				hf := hc.Call.StaticCallee()
+				r.Funcs[c.FuncKey(hf)] = true
+				funcInstrs(hf, func(in ssa.Instruction) {
+					rt, isR := in.(*ssa.Return)
+					if !isR || len(rt.Results) != 1 {
+						return
+					}
+					m, isC := constString(retVal(rt, 0))
+					if !isC || m == "" {
+						return
+					}
+					for _, cd := range CondsAt(rt.Block()) {
+						cd = unwrapNot(cd)
+						if bo, ok := cd.V.(*ssa.BinOp); ok && bo.Op == token.EQL && cd.True {
+							if k, ok := constInt(bo.Y); ok && k < 256 {
+								if want[byte(k)] == m {
+									got[m] = true
+								} else if _, isPfx := want[byte(k)]; isPfx {
+									r.Add("R1", "353:prefix:"+string(rune(k)), c.InstrPos(rt), c.FuncKey(hf), "prefix maps to the right privilege", false, fmt.Sprintf("prefix %q sets %s", rune(k), m))
+								}
+							}
+						}
+					}
+				})
+			}
 			if m, ok := constString(cs.Common().Args[1]); ok {
 				// which prefix guards it?
 				for _, cd := range CondsAt(cs.Block()) {
